@@ -121,6 +121,83 @@ def cases(depth: int) -> list[tuple[int, tuple[tuple[int, int], ...]]]:
     return out
 
 
+def arrival_case(opts: dict[str, Any], start: int, cmd: str) -> list[tuple[str, str]]:
+    """From a reported position, one command: the estimate reaches the target exactly when the configured travel time of that
+    direction x the distance has elapsed (not a second earlier), whatever inversion options are set."""
+    viols: list[tuple[str, str]] = []
+    saved = TC.time
+    with CoreWorld(t0=1024.0, rate_limit=0) as w:
+        TC.time = LoopClock(w.loop)  # type: ignore[assignment]
+        try:
+            cfg = {"group_address_long": "1/0/1", "group_address_stop": "1/0/3", "group_address_position": "1/0/4", "group_address_position_state": "1/0/5", **opts}
+            cover = Cover(w.xknx, "cover", **cfg)  # type: ignore[arg-type]
+            w.xknx.devices.async_add(cover)
+            w.start()
+            inv_pos = bool(opts.get("invert_position"))
+            raw = round((100 - start if inv_pos else start) * 255 / 100)
+            t = Telegram(GroupAddress("1/0/5"), payload=GroupValueWrite(DPTArray((raw,))), source_address=IndividualAddress("1.1.9"), direction=TelegramDirection.INCOMING)
+            w.xknx.telegrams.put_nowait(t)
+            w.run(0.5)
+            p0 = cover.current_position()
+            if p0 is None or abs(p0 - start) > 1:
+                return [("harness:cover-start-position", f"{opts} start={start}: reports {p0}")]
+            target = {"set_up": 0, "set_down": 100}.get(cmd, 30)
+            if target == p0:
+                return []
+            coro = {"set_up": cover.set_up, "set_down": cover.set_down}.get(cmd)
+            w.spawn(coro() if coro else cover.set_position(30), name="harness-user")
+            w.loop.settle()
+            t_dir = opts["travel_time_down"] if target > p0 else opts["travel_time_up"]
+            dur = t_dir * abs(target - p0) / 100
+            ctxs = f"Cover({opts}) at {p0}, {cmd}: target {target}, travel time of that direction {t_dir}s -> {dur}s"
+            if dur > 1.5:
+                w.run(dur - 1.0)
+                est = cover.current_position()
+                if est == target:
+                    viols.append(("cover-arrives-early", f"{ctxs}; already reports {est} after {dur - 1.0}s"))
+                w.run(1.0 + 0.01)
+            else:
+                w.run(dur + 0.01)
+            est = cover.current_position()
+            if est != target:
+                viols.append(("cover-arrives-late", f"{ctxs}; reports {est} after {dur + 0.01}s"))
+        finally:
+            TC.time = saved
+    return viols
+
+
+def arrival_cases() -> list[tuple[dict[str, Any], int, str]]:
+    out = []
+    for inv_ud in (False, True):
+        for inv_pos in (False, True):
+            for down, up in ((20, 20), (10, 40), (40, 10)):
+                opts: dict[str, Any] = {"travel_time_down": down, "travel_time_up": up}
+                if inv_ud:
+                    opts["invert_updown"] = True
+                if inv_pos:
+                    opts["invert_position"] = True
+                for start in (0, 50, 100):
+                    for cmd in ("set_up", "set_down", "set_position(30)"):
+                        out.append((opts, start, cmd))
+    return out
+
+
+def arrival_worker() -> Part:
+    import logging
+
+    logging.disable(logging.CRITICAL)
+    part = Part()
+    for i, (opts, start, cmd) in enumerate(arrival_cases()):
+        viols = arrival_case(opts, start, cmd)
+        part.evaluations += 1
+        part.nontrivial += 1
+        part.transitions += 1
+        part.outcomes["cover-arrival:" + ("violating" if viols else "ok")] += 1
+        for s_, d in viols:
+            part.viol(s_, d, ["cover-arrival", i], rank=(1, i))
+    return part
+
+
 def worker(k: int, n: int, depth: int) -> Part:
     import logging
 
@@ -140,5 +217,7 @@ def worker(k: int, n: int, depth: int) -> Part:
 
 
 def replay(case: Any) -> list[tuple[str, str]]:
+    if case[0] == "cover-arrival":
+        return arrival_case(*arrival_cases()[case[1]])
     _tag, ci, seq = case
     return run_case(ci, tuple((a, e) for a, e in seq))
